@@ -28,7 +28,8 @@ def scene_xml(sc):
     body.append('    </body>')
   tup.append(f'      <element objtype="geom" objname="ground" prm="{render.fl(sc["pelast"])!r}"/>')
   return ('<mujoco>\n  <compiler angle="radian"/>\n  <custom>\n    <tuple name="elasticity">\n' + '\n'.join(tup) +
-          '\n    </tuple>\n  </custom>\n  <worldbody>\n    <geom name="ground" type="plane" size="0 0 1" pos="0 0 0"/>\n' +
+          '\n    </tuple>\n  </custom>\n  <worldbody>\n    <geom name="ground" type="plane" size="0 0 1" ' +
+          f'pos="{render.vec(sc["plane"]["pos"])}" quat="{render.vec(sc["plane"]["quat"])}"/>\n' +
           '\n'.join(body) + '\n  </worldbody>\n</mujoco>\n')
 
 
@@ -39,10 +40,16 @@ def eval_case(case):
   from brax.io import mjcf
   sc = case['scene']
   xml = scene_xml(sc)
-  sys = mjcf.loads(xml)
+  try:
+    sys = mjcf.loads(xml)
+  except Exception as e:
+    return {'xml': xml, 'rows': [], 'brax_error': f'{type(e).__name__}: {str(e)[:300]}'}
   x = base.Transform(pos=jp.asarray([render.fvec(l['pos']) for l in sc['links']]),
                      rot=jp.asarray([render.fvec(l['quat']) for l in sc['links']]))
-  c = jax.jit(contact.get)(sys, x)
+  try:
+    c = jax.jit(contact.get)(sys, x)
+  except Exception as e:
+    return {'xml': xml, 'rows': [], 'brax_error': f'{type(e).__name__}: {str(e)[:300]}'}
   if c is None:
     return {'xml': xml, 'rows': []}
   rows = []
@@ -65,7 +72,7 @@ def run(ctx):
                      'rows for geom pairs on the same body never appear (MuJoCo filters them)']
   os.makedirs(tlc.WORK, exist_ok=True)
   cfg = os.path.join(tlc.WORK, 'c10.cfg')
-  tlc.write_cfg(cfg, constants={'NScenes': 60 if q else 1500}, invariants=['Symmetric', 'NoFartherThanCentres'])
+  tlc.write_cfg(cfg, constants={'NScenes': 60 if q else 1500, 'SeedBase': core.seed_base(ctx, 10)}, invariants=['Symmetric', 'NoFartherThanCentres'])
   dump = os.path.join(tlc.WORK, 'c10')
   res = tlc.run('Contact', cfg, name='c10', dump=dump, seed=ctx.seed + 16, expect_ok=True, coverage=True)
   tlc.require_coverage(res, ['Compute'], 'c10')
@@ -77,6 +84,9 @@ def run(ctx):
   for case, r in par.run('harness.drivers.c10', 'eval_case', cases):
     out = case['out']
     ng = out['ngeom']
+    if 'brax_error' in r:
+      ctx.violation(f'contact.get raised: {r["brax_error"]}', {'xml': r['xml']}, {'call': 'contact.get', 'predicate': 'raised'})
+      continue
     ctx.traces += 1
     curved = False
     used_plane = {}
@@ -95,8 +105,9 @@ def run(ctx):
         if abs(row['dist'] - cands[j]) > 5e-6:
           bad = bad or f'plane contact dist {row["dist"]} not among the closed-form {cands}'
         used_plane.setdefault(k, []).append(j)
-        want_n = np.array([0, 0, 1.0]) if a == 0 else np.array([0, 0, -1.0])
-        if np.max(np.abs(n - want_n)) > 1e-9:
+        pn = np.array(render.fvec(out['pnormal']))
+        want_n = pn if a == 0 else -pn
+        if np.max(np.abs(n - want_n)) > 1e-6:
           bad = bad or f'plane normal {n.tolist()} should be {want_n.tolist()} (from geom {a} to geom {b})'
         links = (-1, out['owner'][k - 1]) if a == 0 else (out['owner'][k - 1], -1)
         el = (render.fl(case['scene']['pelast']) + render.fl(out['elast'][k - 1])) / 2
